@@ -15,8 +15,23 @@
      (c) line score   : the comparison  score >= threshold  made on the model's exact rational
                         parts is the real comparison on mean(paf . unit direction) + penalty;
      (d) reassembly   : from score separation + the C08 grouping / assignment contracts, the
-                        output is exactly one instance per visible-edge-connected group;
-     (e) the executable `component`/`groups` the harness evaluates compute those groups.
+                        output is exactly one instance per visible-edge-connected group.
+                        DOMAIN (round 4, review finding 1): "tree skeleton" = rooted tree listed parent ->
+                        child in any order and numbering = C17's `arborescence` (what C08 and C17 assume,
+                        what upstream SLEAP demands of a bottom-up skeleton).  The grouping contract speaks
+                        of the edge types the code ASSEMBLES, `processed edges` (= toposort_edges, C17's
+                        model); c03_reassembly_processed_partial holds for ANY listing and gives the groups
+                        connected through PROCESSED visible edges; for an arborescence every edge type is
+                        processed (c03_processed_all_for_trees) and c03_reassembly_partial gives the
+                        property's groups.  A tree with a mis-oriented edge ([(0,1);(2,1)]) is outside:
+                        ex_c03_misoriented_tree_loses_edge (the harness runs such skeletons as
+                        correspondence cases: model = forward, both lose the part).
+     (e) the executable `component`/`groups`/`expected_instances`/`forward_instances` the harness
+                        evaluates: groups are sound, COMPLETE, pairwise disjoint, listed once; the relation is
+                        the `vconn` of (d); rows have n_nodes slots, Some (decoded keypoint) exactly at the
+                        members, None elsewhere; every coordinate obeys the half-cell bound outside the band;
+                        the abstract `output` of (d) has exactly the member pattern of `groups`
+                        (c03_output_is_groups_sound, _complete); `table_alt1` (rectangular tables) implies `separated`.
      (f) separation derived: the score-separation premise of (d) FOLLOWS from the geometry of the
                         ideal PAFs (IdealPaf.v: the weights exp(-d^4/2sigma^2) of edge_maps.py, summed
                         over animals, sampled at the cells make_line_subs reads): own segment within
@@ -30,14 +45,18 @@
                         answer to a call does not depend on the calls before or after it, and the sampling
                         grid of the ideal maps is a function of (size, stride) of the current frame, inverted
                         by the reader that divides by the same stride.  Every score / penalty theorem of (c)
-                        is restated for the current call's length.
+                        is restated for the current call's length.  Statelessness is a MODELLING DECISION
+                        (score_calls is a map): the theorems marked [_def] / [_inst] below restate the
+                        definition / instantiate a theorem of (c); what ties the Python objects to it is the
+                        scorer-stream and session correspondence of the harness, not these theorems.
    Full statement refuted: c03_half_cell_bound_refuted (F10), c03_long_edge_refuted (F24).  c03_reassembly_partial keeps score
    separation as a HYPOTHESIS (measured by the harness on the real scores of every scene);
    c03_reassembly_from_geometry derives it for the documented geometric sub-class (the harness evaluates
    the geometric premise on every scene and checks the derived bounds against the real scores). *)
 From Coq Require Import List ZArith QArith Qabs Reals Qreals Relations.
 Import ListNotations.
-From SV Require Import C03.BottomUp C03.Lemmas C03.IdealPaf C03.SepLemmas C03.Scorer C03.ScorerLemmas.
+From SV Require Import C03.BottomUp C03.Lemmas C03.SkelLemmas C03.IdealPaf C03.SepLemmas C03.Scorer C03.ScorerLemmas.
+From SV Require C17.Toposort C17.Lemmas.
 Local Open Scope Q_scope.
 
 (* ------------------------------------------------------------------ (a) decode *)
@@ -196,37 +215,103 @@ Theorem c03_saturated_unique_optimum : forall (S D : list nat) (sc : nat -> nat 
 Proof. exact saturated_unique_optimum. Qed.
 Print Assumptions c03_saturated_unique_optimum.
 
-(* EXACT REASSEMBLY from score separation (partial: separation is a hypothesis).
+(* EXACT REASSEMBLY from score separation, ANY edge listing (partial: separation is a hypothesis).
    Hypotheses, in order: the assignment oracle's contract (C08 f); score separation per edge type
    (all candidates finite, true pairs >= mls, and EITHER cross pairs < mls with the true pairs
    saturating the smaller side OR every optimum contains the true pairs and nothing else >= mls);
-   the grouping contract (C08 c: instances = connected components of the accepted matches,
-   C08 b: partition).  Peaks are the visible keypoints, each detected once.
+   proc = the edge types whose accepted matches are assembled (the code: `processed edges`);
+   the grouping contract (C08 c: instances = connected components of the accepted matches of the
+   assembled edge types, C08 b: partition).  Peaks are the visible keypoints, each detected once.
    Conclusion: (1) every predicted instance holds precisely the keypoints of one group of >= 2
-   visible keypoints of one labelled animal connected through visible edges; (2) every such group
-   has exactly one predicted instance. *)
-Theorem c03_reassembly_partial :
+   visible keypoints of one labelled animal connected through visible ASSEMBLED edges; (2) every such
+   group has exactly one predicted instance. *)
+Theorem c03_reassembly_processed_partial :
   forall (edges : list (nat * nat)) (n_animals : nat) (vis : nat -> nat -> bool)
          (score : nat -> nat -> nat -> option Q) (mls : Q) (matching : nat -> list (nat * nat)),
   (forall k e, nth_error edges k = Some e -> all_finite n_animals vis score k e ->
      optimal (srcs n_animals vis e) (dsts n_animals vis e) (sck score k) (matching k)) ->
   (forall k e, nth_error edges k = Some e -> separated n_animals vis score mls k e) ->
-  forall output : list instance,
+  forall (proc : nat -> bool) (output : list instance),
   (forall I, In I output ->
-     exists p, member p I /\ (forall q, member q I <-> conn edges score mls matching p q) /\
+     exists p, member p I /\ (forall q, member q I <-> conn edges score mls matching proc p q) /\
                (exists q, q <> p /\ member q I)) ->
-  (forall p q, adj edges score mls matching p q -> exists I, In I output /\ member p I) ->
+  (forall p q, adj edges score mls matching proc p q -> exists I, In I output /\ member p I) ->
   (forall i j I J p, nth_error output i = Some I -> nth_error output j = Some J ->
      member p I -> member p J -> i = j) ->
   (forall I, In I output ->
      exists a j0, (a < n_animals)%nat /\ vis a j0 = true /\
-       (forall b j, member (b, j) I <-> b = a /\ vconn edges vis a j0 j) /\
-       (exists j1, j1 <> j0 /\ vconn edges vis a j0 j1))
+       (forall b j, member (b, j) I <-> b = a /\ vconn edges vis proc a j0 j) /\
+       (exists j1, j1 <> j0 /\ vconn edges vis proc a j0 j1))
   /\
-  (forall a i j, (a < n_animals)%nat -> vedge edges vis a i j ->
+  (forall a i j, (a < n_animals)%nat -> vedge edges vis proc a i j ->
      exists n I, nth_error output n = Some I /\ member (a, i) I /\ member (a, j) I /\
        forall n' I', nth_error output n' = Some I' -> member (a, i) I' -> n' = n).
 Proof. exact reassembly_from_separation. Qed.
+Print Assumptions c03_reassembly_processed_partial.
+
+(* what "visible edge" means above, for proc = all_edges (every edge type assembled) *)
+Theorem c03_vedge_all_edges_def : forall edges vis a i j,
+  vedge edges vis all_edges a i j <-> In (i, j) edges /\ vis a i = true /\ vis a j = true.
+Proof. exact vedge_all_In. Qed.
+Print Assumptions c03_vedge_all_edges_def.
+
+(* the code assembles the edge types toposort_edges returns (C17's model); for a rooted tree listed
+   parent -> child (any order, any numbering) that is every edge type ... *)
+Theorem c03_processed_all_for_trees : forall (es : list (nat * nat)) r,
+  C17.Lemmas.arborescence es r -> forall k, (k < length es)%nat -> processed es k = true.
+Proof. exact processed_all. Qed.
+Print Assumptions c03_processed_all_for_trees.
+
+Theorem c03_processed_edges_spec : forall es e,
+  In e (processed_edges es) <-> exists k, processed es k = true /\ nth_error es k = Some e.
+Proof. exact processed_edges_In. Qed.
+Print Assumptions c03_processed_edges_spec.
+
+(* ... so what forward returns (forward_instances: groups over the processed edges) is what the property
+   describes (expected_instances: groups over the whole listing) *)
+Theorem c03_forward_instances_tree : forall g n (es : list (nat * nat)) r animals,
+  C17.Lemmas.arborescence es r -> forward_instances g n es animals = expected_instances g n es animals.
+Proof. exact forward_instances_tree. Qed.
+Print Assumptions c03_forward_instances_tree.
+
+(* OUTSIDE the domain: a tree with a mis-oriented edge (node 1 has two incoming edges) is not an
+   arborescence (is_tree = false); toposort_edges returns (0,), edge type 1 is never assembled and part 2
+   is left out of the instance although it is connected through a visible edge.  The model follows the
+   code there (the harness compares forward_instances with forward on such skeletons). *)
+Example ex_c03_misoriented_tree_loses_edge :
+  (processed_edges [(0, 1); (2, 1)]%nat = [(0, 1)]%nat /\ C17.Toposort.is_tree [(0, 1); (2, 1)]%nat = false) /\
+  (groups 3 (processed_edges [(0, 1); (2, 1)]%nat) [true; true; true] = [[0; 1]%nat] /\
+   groups 3 [(0, 1); (2, 1)]%nat [true; true; true] = [[0; 1; 2]%nat]).
+Proof. exact (conj misoriented_processed misoriented_groups). Qed.
+
+(* EXACT REASSEMBLY for every TREE SKELETON (partial: separation is a hypothesis): the grouping contract
+   for the edge types the code assembles + the skeleton is a rooted tree  ==>  one instance per group of
+   >= 2 visible keypoints connected through visible skeleton edges (all of them), exactly those
+   keypoints.  [round 4: the hypothesis `arborescence edges r` is new; before, the contract was assumed
+   for every edge type of any listing, which the code does not provide on mis-oriented trees] *)
+Theorem c03_reassembly_partial :
+  forall (edges : list (nat * nat)) (r : nat) (n_animals : nat) (vis : nat -> nat -> bool)
+         (score : nat -> nat -> nat -> option Q) (mls : Q) (matching : nat -> list (nat * nat)),
+  C17.Lemmas.arborescence edges r ->
+  (forall k e, nth_error edges k = Some e -> all_finite n_animals vis score k e ->
+     optimal (srcs n_animals vis e) (dsts n_animals vis e) (sck score k) (matching k)) ->
+  (forall k e, nth_error edges k = Some e -> separated n_animals vis score mls k e) ->
+  forall output : list instance,
+  (forall I, In I output ->
+     exists p, member p I /\ (forall q, member q I <-> conn edges score mls matching (processed edges) p q) /\
+               (exists q, q <> p /\ member q I)) ->
+  (forall p q, adj edges score mls matching (processed edges) p q -> exists I, In I output /\ member p I) ->
+  (forall i j I J p, nth_error output i = Some I -> nth_error output j = Some J ->
+     member p I -> member p J -> i = j) ->
+  (forall I, In I output ->
+     exists a j0, (a < n_animals)%nat /\ vis a j0 = true /\
+       (forall b j, member (b, j) I <-> b = a /\ vconn edges vis all_edges a j0 j) /\
+       (exists j1, j1 <> j0 /\ vconn edges vis all_edges a j0 j1))
+  /\
+  (forall a i j, (a < n_animals)%nat -> vedge edges vis all_edges a i j ->
+     exists n I, nth_error output n = Some I /\ member (a, i) I /\ member (a, j) I /\
+       forall n' I', nth_error output n' = Some I' -> member (a, i) I' -> n' = n).
+Proof. exact reassembly_tree. Qed.
 Print Assumptions c03_reassembly_partial.
 
 (* ------------------------------------------------------------------ (f) separation from geometry *)
@@ -338,9 +423,10 @@ Theorem c03_separated_from_threshold : forall n_animals vis score (mls T : Q) k 
 Proof. exact separated_from_threshold. Qed.
 Print Assumptions c03_separated_from_threshold.
 
-(* EXACT REASSEMBLY FROM GEOMETRY: c03_reassembly_partial with the separation hypothesis replaced
-   by the geometric premise on the ideal PAFs (per edge type, with its own parameters) *)
-Theorem c03_reassembly_from_geometry :
+(* EXACT REASSEMBLY FROM GEOMETRY: c03_reassembly_processed_partial / c03_reassembly_partial with the
+   separation hypothesis replaced by the geometric premise on the ideal PAFs (per edge type, with its own
+   parameters); first for any listing and any set of assembled edge types ... *)
+Theorem c03_reassembly_from_geometry_processed :
   forall (edges : list (nat * nat)) (n_animals : nat) (vis : nat -> nat -> bool)
          (score : nat -> nat -> nat -> option Q) (mls : Q) (matching : nat -> list (nat * nat))
          (sigma eps : R) (seg_of : nat -> nat -> seg) (pts : nat -> nat -> nat -> list (R * R))
@@ -349,22 +435,51 @@ Theorem c03_reassembly_from_geometry :
      optimal (srcs n_animals vis e) (dsts n_animals vis e) (sck score k) (matching k)) ->
   (forall k e, nth_error edges k = Some e ->
      geo_premise n_animals vis score mls sigma eps seg_of pts dirx diry pen k e) ->
-  forall output : list instance,
+  forall (proc : nat -> bool) (output : list instance),
   (forall I, In I output ->
-     exists p, member p I /\ (forall q, member q I <-> conn edges score mls matching p q) /\
+     exists p, member p I /\ (forall q, member q I <-> conn edges score mls matching proc p q) /\
                (exists q, q <> p /\ member q I)) ->
-  (forall p q, adj edges score mls matching p q -> exists I, In I output /\ member p I) ->
+  (forall p q, adj edges score mls matching proc p q -> exists I, In I output /\ member p I) ->
   (forall i j I J p, nth_error output i = Some I -> nth_error output j = Some J ->
      member p I -> member p J -> i = j) ->
   (forall I, In I output ->
      exists a j0, (a < n_animals)%nat /\ vis a j0 = true /\
-       (forall b j, member (b, j) I <-> b = a /\ vconn edges vis a j0 j) /\
-       (exists j1, j1 <> j0 /\ vconn edges vis a j0 j1))
+       (forall b j, member (b, j) I <-> b = a /\ vconn edges vis proc a j0 j) /\
+       (exists j1, j1 <> j0 /\ vconn edges vis proc a j0 j1))
   /\
-  (forall a i j, (a < n_animals)%nat -> vedge edges vis a i j ->
+  (forall a i j, (a < n_animals)%nat -> vedge edges vis proc a i j ->
      exists n I, nth_error output n = Some I /\ member (a, i) I /\ member (a, j) I /\
        forall n' I', nth_error output n' = Some I' -> member (a, i) I' -> n' = n).
 Proof. exact reassembly_from_geometry. Qed.
+Print Assumptions c03_reassembly_from_geometry_processed.
+
+(* ... then for every tree skeleton (arborescence; hypothesis new in round 4, see c03_reassembly_partial) *)
+Theorem c03_reassembly_from_geometry :
+  forall (edges : list (nat * nat)) (r : nat) (n_animals : nat) (vis : nat -> nat -> bool)
+         (score : nat -> nat -> nat -> option Q) (mls : Q) (matching : nat -> list (nat * nat))
+         (sigma eps : R) (seg_of : nat -> nat -> seg) (pts : nat -> nat -> nat -> list (R * R))
+         (dirx diry pen : nat -> nat -> nat -> R),
+  C17.Lemmas.arborescence edges r ->
+  (forall k e, nth_error edges k = Some e -> all_finite n_animals vis score k e ->
+     optimal (srcs n_animals vis e) (dsts n_animals vis e) (sck score k) (matching k)) ->
+  (forall k e, nth_error edges k = Some e ->
+     geo_premise n_animals vis score mls sigma eps seg_of pts dirx diry pen k e) ->
+  forall output : list instance,
+  (forall I, In I output ->
+     exists p, member p I /\ (forall q, member q I <-> conn edges score mls matching (processed edges) p q) /\
+               (exists q, q <> p /\ member q I)) ->
+  (forall p q, adj edges score mls matching (processed edges) p q -> exists I, In I output /\ member p I) ->
+  (forall i j I J p, nth_error output i = Some I -> nth_error output j = Some J ->
+     member p I -> member p J -> i = j) ->
+  (forall I, In I output ->
+     exists a j0, (a < n_animals)%nat /\ vis a j0 = true /\
+       (forall b j, member (b, j) I <-> b = a /\ vconn edges vis all_edges a j0 j) /\
+       (exists j1, j1 <> j0 /\ vconn edges vis all_edges a j0 j1))
+  /\
+  (forall a i j, (a < n_animals)%nat -> vedge edges vis all_edges a i j ->
+     exists n I, nth_error output n = Some I /\ member (a, i) I /\ member (a, j) I /\
+       forall n' I', nth_error output n' = Some I' -> member (a, i) I' -> n' = n).
+Proof. exact reassembly_from_geometry_tree. Qed.
 Print Assumptions c03_reassembly_from_geometry.
 
 (* the geometric premise is satisfiable (one animal, segment (0,0)->(10,0), sigma 15, R2 = 100,
@@ -390,6 +505,129 @@ Theorem c03_groups_sound : forall n es vis c,
 Proof. exact groups_sound. Qed.
 Print Assumptions c03_groups_sound.
 
+(* COMPLETE: every class with a second member is emitted (round 4, review finding 2 (i)) ... *)
+Theorem c03_groups_complete : forall n es vis,
+  (forall u v, In (u, v) es -> (u < n /\ v < n)%nat) ->
+  forall j x, vis_conn es vis j x -> x <> j ->
+  exists c, In c (groups n es vis) /\ forall y, In y c <-> vis_conn es vis j y.
+Proof. exact groups_complete. Qed.
+Print Assumptions c03_groups_complete.
+
+(* ... two emitted groups that share a node are the same list, and no group is listed twice *)
+Theorem c03_groups_disjoint : forall n es vis,
+  (forall u v, In (u, v) es -> (u < n /\ v < n)%nat) ->
+  forall c1 c2 x, In c1 (groups n es vis) -> In c2 (groups n es vis) -> In x c1 -> In x c2 -> c1 = c2.
+Proof. exact groups_disjoint. Qed.
+Print Assumptions c03_groups_disjoint.
+
+Theorem c03_groups_listed_once : forall n es vis, NoDup (groups n es vis).
+Proof. exact groups_NoDup. Qed.
+Print Assumptions c03_groups_listed_once.
+
+(* (ii) the relation of the executable groups is the relation `vconn` of the reassembly theorem *)
+Theorem c03_vis_conn_is_vconn : forall es (vl : list bool) (vis : nat -> nat -> bool) a i j,
+  (forall x, vis a x = visb vl x) ->
+  (vis_conn es vl i j <-> vconn es vis all_edges a i j).
+Proof. exact vis_conn_vconn. Qed.
+Print Assumptions c03_vis_conn_is_vconn.
+
+(* (iii) expected_instances (what the harness compares with forward): one row per (animal, group) ... *)
+Theorem c03_expected_instances_rows : forall g n es animals inst,
+  In inst (expected_instances g n es animals) <->
+  exists a c, In a animals /\ In c (groups n es (visl a)) /\ inst = inst_row g n a c.
+Proof. exact expected_instances_rows. Qed.
+Print Assumptions c03_expected_instances_rows.
+
+(* ... a row has n_nodes slots; the slots of the group's nodes hold the decoded labelled keypoints (all
+   members are visible), every other slot is None = NaN ("precisely those keypoints and NaN for the others") *)
+Theorem c03_instance_row_pattern : forall g n es a c,
+  (forall u v, In (u, v) es -> (u < n /\ v < n)%nat) ->
+  In c (groups n es (visl a)) ->
+  length (inst_row g n a c) = n /\
+  forall j, (j < n)%nat ->
+    (In j c -> exists p, nth j a None = Some p /\ nth_error (inst_row g n a c) j = Some (Some (kp_decoded g p))) /\
+    (~ In j c -> nth_error (inst_row g n a c) j = Some None).
+Proof. exact inst_row_pattern. Qed.
+Print Assumptions c03_instance_row_pattern.
+
+(* (iv) ... and every reported coordinate is within half a confidence-map cell (original px) of the label,
+   outside selector kp_band (F10), when the maps are drawn at p * eff_scale * input_scale (partial: the
+   complement of the F10 selector is a hypothesis; unrefined peaks, the path expected_instances takes) *)
+Theorem c03_kp_decoded_within_half_cell_partial : forall g p,
+  (0 < g_cs g)%Z -> (1 <= g_wc g)%Z -> (1 <= g_hc g)%Z -> 0 < g_scale g -> 0 < g_eff g ->
+  g_f g == g_eff g * g_scale g -> g_off g == 0 -> kp_band g p = false ->
+  Qabs (fst (kp_decoded g p) - fst p) <= zq (g_cs g) / (2 * g_scale g * g_eff g) /\
+  Qabs (snd (kp_decoded g p) - snd p) <= zq (g_cs g) / (2 * g_scale g * g_eff g).
+Proof. exact kp_decoded_within_half_cell. Qed.
+Print Assumptions c03_kp_decoded_within_half_cell_partial.
+
+(* (v) the abstract `output` of the reassembly theorems and the executable groups: when `output` is as
+   c03_reassembly_partial concludes (vis read off the labelled animals), every predicted instance has the
+   member pattern of exactly one (animal, group of `groups`) — i.e. of one row of expected_instances —
+   and every (animal, group) has exactly one predicted instance *)
+Theorem c03_output_is_groups_sound : forall n edges animals,
+  (forall u v, In (u, v) edges -> (u < n /\ v < n)%nat) ->
+  forall output : list instance,
+  ((forall I, In I output ->
+      exists a j0, (a < length animals)%nat /\ vis_of animals a j0 = true /\
+        (forall b j, member (b, j) I <-> b = a /\ vconn edges (vis_of animals) all_edges a j0 j) /\
+        (exists j1, j1 <> j0 /\ vconn edges (vis_of animals) all_edges a j0 j1))
+   /\
+   (forall a i j, (a < length animals)%nat -> vedge edges (vis_of animals) all_edges a i j ->
+      exists n I, nth_error output n = Some I /\ member (a, i) I /\ member (a, j) I /\
+        forall n' I', nth_error output n' = Some I' -> member (a, i) I' -> n' = n)) ->
+  forall I, In I output ->
+    exists a c, (a < length animals)%nat /\ In c (groups n edges (visl (nth a animals []))) /\
+                forall b j, member (b, j) I <-> b = a /\ In j c.
+Proof. exact output_sound. Qed.
+Print Assumptions c03_output_is_groups_sound.
+
+Theorem c03_output_is_groups_complete : forall n edges animals,
+  (forall u v, In (u, v) edges -> (u < n /\ v < n)%nat) ->
+  forall output : list instance,
+  ((forall I, In I output ->
+      exists a j0, (a < length animals)%nat /\ vis_of animals a j0 = true /\
+        (forall b j, member (b, j) I <-> b = a /\ vconn edges (vis_of animals) all_edges a j0 j) /\
+        (exists j1, j1 <> j0 /\ vconn edges (vis_of animals) all_edges a j0 j1))
+   /\
+   (forall a i j, (a < length animals)%nat -> vedge edges (vis_of animals) all_edges a i j ->
+      exists n I, nth_error output n = Some I /\ member (a, i) I /\ member (a, j) I /\
+        forall n' I', nth_error output n' = Some I' -> member (a, i) I' -> n' = n)) ->
+  forall a c, (a < length animals)%nat -> In c (groups n edges (visl (nth a animals []))) ->
+    exists idx I, nth_error output idx = Some I /\
+      (forall b j, member (b, j) I <-> b = a /\ In j c) /\
+      forall idx' I' j, nth_error output idx' = Some I' -> In j c -> member (a, j) I' -> idx' = idx.
+Proof. exact output_complete. Qed.
+Print Assumptions c03_output_is_groups_complete.
+
+(* ------------------------------------------------------------------ premise "alternative 1", decided in Coq *)
+(* table_alt1 (evaluated on every real score table) is SOUND for the premise of c03_reassembly_partial
+   (round 4, review finding 3): true only on rectangular tables (one row per source peak, one entry per
+   destination peak: `combine` would truncate a ragged one), every entry finite, same-animal entries >= mls,
+   all others < mls, true pairs saturating the smaller side ... *)
+Theorem c03_table_alt1_sound : forall S D tab mls,
+  table_alt1 S D tab mls = true ->
+  (forall a b, In a S -> In b D ->
+     exists v, tab_score S D tab a b = Some v /\ (a = b -> mls <= v) /\ (a <> b -> v < mls)) /\
+  length (true_pairs S D) = Nat.min (length S) (length D).
+Proof. exact table_alt1_sound. Qed.
+Print Assumptions c03_table_alt1_sound.
+
+(* ... hence `separated` (through alt_saturated) for the edge type whose scores the table holds *)
+Theorem c03_table_alt1_gives_separation : forall n_animals vis score mls k e tab,
+  table_alt1 (srcs n_animals vis e) (dsts n_animals vis e) tab mls = true ->
+  (forall a b, In a (srcs n_animals vis e) -> In b (dsts n_animals vis e) ->
+     score k a b = tab_score (srcs n_animals vis e) (dsts n_animals vis e) tab a b) ->
+  separated n_animals vis score mls k e.
+Proof. exact table_alt1_separated. Qed.
+Print Assumptions c03_table_alt1_gives_separation.
+
+Example ex_c03_table_alt1_ragged_rejected :
+  table_alt1 [0; 1]%nat [0; 1]%nat [] (1 # 4) = false /\
+  table_alt1 [0; 1]%nat [0; 1]%nat [[Some (1 # 2)]] (1 # 4) = false /\
+  table_alt1 [0; 1]%nat [0; 1]%nat [[Some (1 # 2); Some 0]; [Some 0; Some (1 # 2)]] (1 # 4) = true.
+Proof. exact table_alt1_ragged_rejected. Qed.
+
 (* ------------------------------------------------------------------ non-vacuity *)
 (* all hypotheses of c03_reassembly_partial are met by a concrete instance (one animal, skeleton
    0 -> 1, score 9/10, min_line_scores 1/4), and its conclusion is used *)
@@ -397,6 +635,14 @@ Example ex_c03_reassembly_nonvacuous :
   exists n I, nth_error [[Some 0%nat; Some 0%nat]] n = Some I /\
               member (0, 0)%nat I /\ member (0, 1)%nat I.
 Proof. exact ex_reassembly_instance. Qed.
+
+(* ... and so are the hypotheses of c03_reassembly_partial (arborescence [(0,1)] 0, the contract over
+   `processed [(0,1)]`); the conclusion used is the one about ALL visible edges, incl. uniqueness *)
+Example ex_c03_reassembly_tree_nonvacuous :
+  C17.Lemmas.arborescence [(0, 1)]%nat 0%nat /\
+  exists n I, nth_error [[Some 0%nat; Some 0%nat]] n = Some I /\ member (0, 0)%nat I /\ member (0, 1)%nat I /\
+              forall n' I', nth_error [[Some 0%nat; Some 0%nat]] n' = Some I' -> member (0, 0)%nat I' -> n' = n.
+Proof. exact (conj ex_arborescence_01 ex_reassembly_tree_instance). Qed.
 
 Example ex_c03_decode : (* scale 1/2, eff 3/2, stride 4: label 41 -> input 30.75 -> cell 8 -> 42.67 *)
   in_band 4 20 (to_input ((3 # 2) * (1 # 2)) 0 41) = false /\
@@ -412,19 +658,23 @@ Example ex_c03_groups : (* chain 0-1-2-3 with node 2 missing: one group {0,1}; n
 Proof. reflexivity. Qed.
 
 (* ------------------------------------------------------------------ (g) objects that live across calls *)
-(* ONE scorer object, any history: the answer to a call is the answer to that call alone (nothing is
-   kept from earlier frames, nothing is changed by later ones) *)
+(* [_def] ONE scorer object, any history: the answer to a call is the answer to that call alone (nothing is
+   kept from earlier frames, nothing is changed by later ones).  DEFINITIONAL: score_calls is a map of
+   score_call (statelessness is how the model is written); the scorer-stream tie of the harness is what
+   says this of the Python object *)
 Theorem c03_scorer_calls_independent : forall s taus pre c post,
   nth_error (score_calls s taus (pre ++ c :: post)) (length pre) = Some (score_call s taus c).
 Proof. exact calls_independent. Qed.
 Print Assumptions c03_scorer_calls_independent.
 
+(* [_def] length of a map *)
 Theorem c03_scorer_one_result_per_call : forall s taus cs, length (score_calls s taus cs) = length cs.
 Proof. exact score_calls_length. Qed.
 Print Assumptions c03_scorer_one_result_per_call.
 
-(* the decision  score >= tau  of a long-lived scorer on a candidate of call c is the real comparison
-   with the distance-penalty length of c's OWN tensor: ratio * max(h, w, 2E) * stride *)
+(* [_inst] c03_score_comparison_correct with M := call_M s c.  The decision  score >= tau  of a long-lived
+   scorer on a candidate of call c is the real comparison with the distance-penalty length of c's OWN
+   tensor: ratio * max(h, w, 2E) * stride *)
 Theorem c03_score_decision_uses_current_size : forall s c S len2 tau b,
   0 < len2 -> (0 < s_n s)%nat -> 0 <= s_ratio s -> (0 <= s_ps s)%Z ->
   score_geb S len2 (s_n s) (call_M s c) (s_wt s) tau = Some b ->
@@ -432,7 +682,8 @@ Theorem c03_score_decision_uses_current_size : forall s c S len2 tau b,
 Proof. exact score_decision_current_call. Qed.
 Print Assumptions c03_score_decision_uses_current_size.
 
-(* no penalty up to  max_edge_length_ratio * (largest dimension of the CURRENT PAF tensor) * stride *)
+(* [_inst] c03_penalty_zero_up_to_max_length with M := call_M s c: no penalty up to
+   max_edge_length_ratio * (largest dimension of the CURRENT PAF tensor) * stride *)
 Theorem c03_penalty_zero_within_current_size : forall s c len2,
   0 < len2 -> 0 <= s_ratio s -> (0 <= s_ps s)%Z ->
   len2 <= call_M s c * call_M s c -> penalty_R len2 (call_M s c) (s_wt s) = 0%R.
@@ -504,7 +755,7 @@ Theorem c03_grid_sample_position : forall size s j, (j < Z.to_nat (grid_len size
 Proof. exact grid_vector_nth. Qed.
 Print Assumptions c03_grid_sample_position.
 
-(* ... two grids of the same shape but different strides sample different positions ... *)
+(* [_def] j * s <> j * s': two grids of the same shape but different strides sample different positions ... *)
 Theorem c03_grid_not_determined_by_shape : forall s s' j,
   (j <> 0)%Z -> s <> s' -> ~ cell_x s j == cell_x s' j.
 Proof. exact grid_position_depends_on_stride. Qed.
